@@ -19,8 +19,12 @@ type Reducer interface {
 // DefaultReductions proposes smaller variants of a CLI case.
 func DefaultReductions(c *Case) []*Case {
 	var out []*Case
-	// drop faults
+	// drop faults (but keep one: a case that has a fault plan is replayed as that
+	// plan, a case without one re-enumerates all plans)
 	for i := range c.Spec.Faults {
+		if len(c.Spec.Faults) == 1 {
+			break
+		}
 		d := c.Clone()
 		d.Spec.Faults = append(d.Spec.Faults[:i:i], d.Spec.Faults[i+1:]...)
 		out = append(out, d)
